@@ -1,0 +1,7 @@
+//! Verification door (cargo feature `verif`, off by default).
+//!
+//! Thin public adapters around crate-private items so that an external harness can
+//! drive the real code with generated inputs. Nothing here re-implements library logic,
+//! and nothing here is compiled unless the `verif` feature is enabled.
+
+pub mod codecs;
